@@ -19,14 +19,17 @@ def sh(cmd, **kw):
 def main():
     args = [a for a in sys.argv[1:] if not a.startswith("--")]
     allprops = "--all-props" in sys.argv
-    ids = args or sorted(d for d in os.listdir(os.path.join(ROOT, "seeded")) if os.path.isdir(os.path.join(ROOT, "seeded", d)))
+    sub = "refactors" if "--refactors" in sys.argv else "seeded"   # refactors: harmless changes, no check may raise an alarm
+    if sub == "refactors":
+        allprops = True
+    ids = args or sorted(d for d in os.listdir(os.path.join(ROOT, sub)) if os.path.isdir(os.path.join(ROOT, sub, d)))
     assert sh("git -C /repo status --porcelain --untracked-files=no").stdout.strip() == "", "/repo has local changes"
     results = {}
-    resfile = os.path.join(ROOT, "seeded", "results.json")
+    resfile = os.path.join(ROOT, sub, "results.json")
     if os.path.exists(resfile):
         results = json.load(open(resfile))
     for sid in ids:
-        d = os.path.join(ROOT, "seeded", sid)
+        d = os.path.join(ROOT, sub, sid)
         meta = json.load(open(os.path.join(d, "meta.json")))
         target = meta["property"]
         r = sh("git -C /repo apply %s" % os.path.join(d, "patch.diff"))
@@ -56,7 +59,10 @@ def main():
             sh("git -C /repo checkout -- .")
         json.dump(results, open(resfile, "w"), indent=1, sort_keys=True)
     assert sh("git -C /repo status --porcelain --untracked-files=no").stdout.strip() == ""
-    with open(os.path.join(ROOT, "seeded", "RESULTS.md"), "w") as f:
+    with open(os.path.join(ROOT, sub, "RESULTS.md"), "w") as f:
+        if sub == "refactors":
+            f.write("# Harmless refactors (the property still holds) and the checks that raise an alarm on them\n\n"
+                    "Each change compiles and passes the 52 tests; `caught by` should be empty (shown as **missed**, which here means: no alarm).\n\n")
         f.write("# Seeded changes and the checks that report them\n\n")
         f.write("Each change compiles, passes the 52 existing tests, and breaks the named property (demo.rs fails with it, passes without).\n")
         f.write("`caught by` = quick checks that exit 1 with a VIOLATION line when the patch is applied to /repo.\n\n")
